@@ -87,7 +87,7 @@ class C11(Property):
             "size; non-trivial = >= 2 routes compared with a permuted source, or a window with from_idx > 0")
 
     def searches(self, ctx):
-        n = 800 if ctx.tier == 'quick' else 9600
+        n = 1600 if ctx.tier == 'quick' else 16000
         return [('routes', strategy(), n // ctx.nshards)]
 
     def run(self, spec, ctx):
